@@ -367,3 +367,32 @@ def multiplyPlainNormalPlan (nonzero : Nat) (monoUpper fastLift : Bool) (s : Sch
   pure (multiplyPlainNormalRoute nonzero monoUpper fastLift ++ [100 + sc])
 
 end HC
+
+namespace HC
+
+/-! ### NTT-form plaintexts down the chain (`mod_switch_to_next_plain*`, `mod_switch_plain_to*`) -/
+
+/-- `mod_switch_drop_to_next_plain_internal`: a coefficient-form plaintext, a plaintext on the last level and a scale that does not fit
+    the level the plaintext ARRIVES at are refused; otherwise the buffer is resized to degree × (prime count of the NEXT level) words -/
+def plainDropNextWords (ntt hasNext okNext : Bool) (nNext kNext : Nat) : R Nat :=
+  if ntt = false ∨ hasNext = false ∨ okNext = false then .error .refused else ckMul nNext kNext
+
+/-- `Vec::resize(m, 0)` on the flat word buffer of a plaintext -/
+def resizeWords (d : List Nat) (m : Nat) : List Nat := d.take m ++ List.replicate (m - d.length) 0
+
+/-- the level walk of `mod_switch_plain_to_inplace` over chain indices (index 0 = last level): a coefficient-form plaintext and an
+    upward target are refused; target = current level is the identity WITHOUT any check (the loop body never runs); otherwise the object
+    must be valid and the walk visits cur − 1, …, tgt (`switchSteps`) -/
+def plainSwitchToPlan (valid ntt : Bool) (cur tgt : Nat) : R (List Nat) :=
+  if ntt = false then .error .refused
+  else if cur < tgt then .error .refused
+  else if cur = tgt then pure []
+  else if valid = false then .error .refused
+  else switchSteps cur tgt
+
+/-- the data of a plaintext after walking the levels `steps`: at every level the buffer is resized to `n · kc level` words
+    (`kc` = number of coefficient primes of a level of the chain) -/
+def plainWalkData (kc : Nat → Nat) (n : Nat) (d : List Nat) (steps : List Nat) : List Nat :=
+  steps.foldl (fun d lvl => resizeWords d (n * kc lvl)) d
+
+end HC
